@@ -46,6 +46,18 @@ CHECKS["C16"] = dict(
          "sequences of length <=2 (thorough 3) on the real dataset classes vs a plain list/set and element-wise appending.",
     note="Assumed: builtin list/set semantics, the += / |= desugaring, weakref; the inferences triggered by a recorded relation are C15's subject.",
 )
+CHECKS["C14"] = dict(
+    category="proof",
+    technique="contract-based deductive verification: representation invariant of SymbolGraph preserved by every operation (real ast, ghost state as z3 functions over uninterpreted sorts, loop invariants), induction over histories",
+    text="add_node, remove_node (incl. its two purge loops, by inductive invariants), add_relation, relation_exists, get/ensure_wrapped_instance, "
+         "WrappedInstance/PredicateClassRelation construction are proved to preserve the representation invariant WF (I1 graph payloads, I2 id index, "
+         "I3 class lists, I4 relation index mirrors the edges) from ANY WF state, with dead instances, recycled node indices and recycled ids allowed "
+         "by the assumed rustworkx/id contracts; remove_node leaves nothing of the removed wrapper behind; relation_exists <=> edge. "
+         "Hence by induction over histories a relation assertion has the same effect whatever lived and died before. Bounded stand-in: "
+         "garbage-prefix driver on the real dataset vs a fresh graph.",
+    note="Assumed contracts: rustworkx.PyDiGraph (index recycling, incident edges removed with the node, snapshot lists), id() injective among live "
+         "objects only, weakref semantics, dict/list/set builtins (model containers in contracts/sgmodel.py); remove_node is reached for dead referents.",
+)
 NOT_APPLICABLE = {
     "C05": "decided by SQLAlchemy/SQLite semantics acting on generated code; no krrood function body carries it, so no contract within reach can express it (DESIGN.md §4)",
 }
